@@ -5,6 +5,7 @@
    lengths, COOKIE lengths) - never struct.error, IndexError, UnicodeDecodeError. *)
 From DV Require Import Base.Prelude Model.NameM Model.ParserM Model.UntrustedM
                        Proofs.NameValid Proofs.ParserSafe Proofs.ParserProg Proofs.UntrustedSafe.
+From DV Require Proofs.UntrustedDec.
 Open Scope Z_scope.
 
 Section Edns.
@@ -108,4 +109,94 @@ Section Edns.
     apply (okx_restrict_to 0 olen (dec_option wire otype) s0); [lia|exact Ho|exact W|].
     intros s1 W1 H1. apply (okx_dec_option 0); [lia|exact W1|exact H1].
   Qed.
+
+  (* ---------- the loops of the OPT and TXT wire parsers terminate ----------
+     Inside dns.rdata.from_wire_parser the per-type parser runs under ExceptionWrapper(FormError),
+     which would turn the model's fuel marker into a FormError; here it is excluded at its source. *)
+  Definition nofuel {A} (r : out A * pstate) : Prop := fst r <> Exn (XInt iFuel).
+
+  Lemma good_get_counted_strict lo k s :
+    0 <= lo -> wfl wire lo s -> 0 <= k ->
+    good wire lo isForm s (get_counted_bytes wire k s) (fun l s' => pcur s + k <= pcur s' /\ pcur s' <= pend s').
+  Proof.
+    intros Hlo W Hk. unfold get_counted_bytes.
+    eapply good_bind; [apply good_get_bytes; auto|].
+    intros lb s1 W1 E1 F1 (Hl & Hb & Hc & Hle & Hfu).
+    eapply good_weaken; [apply good_get_bytes; auto; apply be_decode_nonneg; auto| auto |].
+    intros l s2 W2 E2 F2 (Hl2 & Hb2 & Hc2 & Hle2 & Hfu2).
+    pose proof (be_decode_nonneg lb Hb). split; lia.
+  Qed.
+
+  Lemma txt_loop_nofuel lo : 0 <= lo -> forall fuel n s, wfl wire lo s ->
+    (Z.to_nat (remaining s) < fuel)%nat -> nofuel (txt_loop wire fuel n s).
+  Proof.
+    intros Hlo. induction fuel as [|f IH]; intros n s W Hf; [lia|]. cbn [txt_loop].
+    destruct (remaining s >? 0) eqn:Er; [|unfold nofuel; cbn; discriminate].
+    pose proof (good_get_counted_strict lo 1 s Hlo W ltac:(lia)) as G. unfold mbind, good in *.
+    destruct (get_counted_bytes wire 1 s) as [[l|[e|e]] s1].
+    - destruct G as (W1 & E1 & _ & Hc & Hle). apply IH; [exact W1|].
+      unfold remaining in *. lia.
+    - unfold nofuel; cbn; discriminate.
+    - contradiction.
+  Qed.
+
+  Theorem dec_txt_terminates lo s : 0 <= lo -> wfl wire lo s -> nofuel (dec_txt wire s).
+  Proof.
+    intros Hlo W. unfold dec_txt, mbind.
+    pose proof (txt_loop_nofuel lo Hlo (S (Z.to_nat (remaining s))) 0%nat s W ltac:(lia)) as N.
+    unfold nofuel in *. destruct (txt_loop wire (S (Z.to_nat (remaining s))) 0 s) as [[n|x] s1]; cbn [fst] in *.
+    - destruct n; cbn; discriminate.
+    - intros X. apply N. inversion X. reflexivity.
+  Qed.
+
+  Lemma restrict_to_val_position {A} lo size (body : M A) s a s' :
+    0 <= lo -> tame wire lo body -> wfl wire lo s ->
+    restrict_to size body s = (Val a, s') ->
+    0 <= size /\ pcur s' = pcur s + size /\ pend s' = pend s /\ wfl wire lo s' /\ pcur s' <= pend s'.
+  Proof.
+    intros Hlo T (Hc & He & Hf). unfold restrict_to. destruct (size <? 0) eqn:E0; [discriminate|].
+    destruct (size >? remaining s) eqn:E1; [discriminate|]. unfold remaining in E1.
+    apply Z.ltb_ge in E0. rewrite Z.gtb_ltb in E1. apply Z.ltb_ge in E1.
+    assert (W0 : wfl wire lo (set_end s (pcur s + size))) by (unfold wfl, set_end; cbn; lia).
+    destruct (T _ W0) as (W1 & P1 & F1).
+    destruct (body (set_end s (pcur s + size))) as [[b|x] s1] eqn:Eb; [|discriminate].
+    cbn [snd] in *. destruct (pcur s1 =? pend s1) eqn:Ec; [|discriminate].
+    intros X; inversion X; subst. cbn in *. destruct W1 as (A1 & A2 & A3).
+    split; [lia|]. split; [lia|]. split; [reflexivity|]. split; [unfold wfl; cbn; lia|lia].
+  Qed.
+
+  Lemma opt_loop_nofuel lo : 0 <= lo -> forall fuel s, wfl wire lo s -> pcur s <= pend s ->
+    (Z.to_nat (remaining s) < fuel)%nat -> nofuel (opt_loop wire fuel s).
+  Proof.
+    intros Hlo. induction fuel as [|f IH]; intros s W Hle Hf; [lia|]. cbn [opt_loop].
+    destruct (remaining s >? 0) eqn:Er; [|unfold nofuel; cbn; discriminate].
+    pose proof (good_get_struct wire Hwire lo [2; 2] s Hlo W ltac:(repeat (constructor; [lia|]); constructor)) as G.
+    unfold mbind at 1. unfold good in G.
+    destruct (get_struct wire [2; 2] s) as [[vs|[e|e]] s1]; [|unfold nofuel; cbn; discriminate|contradiction].
+    destruct G as (W1 & E1 & _ & Hl & Hnn & Hc & Hle1 & _).
+    destruct vs as [|otype [|olen [|? ?]]]; cbn in Hl; try discriminate.
+    assert (Holen : 0 <= olen) by (inversion Hnn as [|? ? _ H2]; subst; inversion H2; subst; assumption).
+    unfold mbind.
+    destruct (restrict_to olen (dec_option wire otype) s1) as [[u|x] s2] eqn:Er2.
+    - destruct (@restrict_to_val_position _ lo olen _ s1 u s2 Hlo
+                  (UntrustedDec.tame_dec_option wire Hwire lo otype Hlo) W1 Er2) as (Ho & Hp & He & W2 & Hle2).
+      apply IH; [exact W2|exact Hle2|]. unfold remaining in *. cbn in Hc. lia.
+    - (* the option parser raised: the loop ends with that exception, which is not the fuel marker *)
+      assert (O : okx (restrict_to olen (dec_option wire otype) s1)).
+      { apply (okx_restrict_to lo); auto. intros s0 W0 H0. apply (okx_dec_option lo); auto. }
+      rewrite Er2 in O. unfold okx in O. cbn [fst] in O. unfold nofuel. cbn [fst].
+      destruct x as [e|e]; [discriminate|]. subst e. discriminate.
+  Qed.
+
+  Theorem dec_opt_terminates lo s : 0 <= lo -> wfl wire lo s -> pcur s <= pend s -> nofuel (dec_opt wire s).
+  Proof. intros Hlo W Hle. unfold dec_opt. apply (opt_loop_nofuel lo); auto. Qed.
 End Edns.
+
+Theorem wire_loops_terminate wire : bytes_ok wire -> forall (lo : Z) (s : pstate),
+  0 <= lo -> wfl wire lo s -> pcur s <= pend s ->
+  fst (dec_opt wire s) <> Exn (XInt iFuel) /\ fst (dec_txt wire s) <> Exn (XInt iFuel).
+Proof.
+  intros Hw lo s Hlo W Hle. split.
+  - apply (dec_opt_terminates wire Hw lo s Hlo W Hle).
+  - apply (dec_txt_terminates wire Hw lo s Hlo W).
+Qed.
